@@ -142,6 +142,10 @@ class MinPathCover(pathmodel.AbstractPathModelDAG):
         
         self.additional_starts = additional_starts
         self.additional_ends = additional_ends
+        # The k-model builds its own s-t graph: it must receive the un-augmented internal graph and internal names
+        self.edges_to_ignore_internal = list(edges_to_ignore_internal)
+        self.additional_starts_internal = additional_starts_internal
+        self.additional_ends_internal = additional_ends_internal
 
         self._solution = None
         self._lowerbound_k = None
@@ -168,15 +172,15 @@ class MinPathCover(pathmodel.AbstractPathModelDAG):
                 i_solver_options["time_limit"] = self.time_limit - self.solve_time_elapsed
 
             model = kpathcover.kPathCover(
-                        G=self.G,
+                        G=self.G_internal,
                         k=i,
                         subpath_constraints=self.subpath_constraints,
                         subpath_constraints_coverage=self.subpath_constraints_coverage,
                         subpath_constraints_coverage_length=self.subpath_constraints_coverage_length,
                         length_attr=self.length_attr,
-                        elements_to_ignore=self.edges_to_ignore,
-                        additional_starts=self.additional_starts,
-                        additional_ends=self.additional_ends,
+                        elements_to_ignore=self.edges_to_ignore_internal,
+                        additional_starts=self.additional_starts_internal,
+                        additional_ends=self.additional_ends_internal,
                         optimization_options=self.optimization_options,
                         solver_options=i_solver_options,
                     )
@@ -184,6 +188,10 @@ class MinPathCover(pathmodel.AbstractPathModelDAG):
 
             if model.is_solved():
                 self._solution = model.get_solution()
+                if self.cover_type == "node":
+                    # Report the paths in the original node names
+                    self._solution["_paths_internal"] = self._solution["paths"]
+                    self._solution["paths"] = self.G_internal.get_condensed_paths(self._solution["paths"])
                 self.set_solved()
                 self.solve_statistics = model.solve_statistics
                 self.solve_statistics["mpc_solve_time"] = time.perf_counter() - self.solve_time_start
